@@ -33,6 +33,10 @@ fn main() {
                 ctx.only = Some(args[k + 1].parse().unwrap());
                 k += 2;
             }
+            "--prefix" => {
+                ctx.prefix = true;
+                k += 1;
+            }
             "--from" => {
                 ctx.from = args[k + 1].parse().unwrap();
                 k += 2;
